@@ -16,6 +16,8 @@ use crate::runner::*;
 struct SlowSpy {
     flushes: Arc<AtomicUsize>,
     slow_ms: u64,
+    /// the next flush fails once (EINTR-like), without painting
+    fail_next: Arc<std::sync::atomic::AtomicBool>,
 }
 
 impl TermLike for SlowSpy {
@@ -50,6 +52,9 @@ impl TermLike for SlowSpy {
         if self.slow_ms > 0 {
             std::thread::sleep(Duration::from_millis(self.slow_ms));
         }
+        if self.fail_next.swap(false, Ordering::SeqCst) {
+            return Err(io::Error::new(io::ErrorKind::Interrupted, "injected transient terminal fault"));
+        }
         self.flushes.fetch_add(1, Ordering::SeqCst);
         Ok(())
     }
@@ -58,7 +63,7 @@ impl TermLike for SlowSpy {
 #[derive(Debug, Clone, Serialize, Deserialize)]
 pub struct RealCase {
     /// 0 keeps-redrawing (1 ms), 1 disable, 2 replace, 3 finish then drop, 4 drop of the last handle, 5 manual ticks ignored,
-    /// 6 finish, reset and enable again with the same interval
+    /// 6 finish, reset and enable again with the same interval, 7 enabled while hidden, 8 one ticker frame fails, 9 a custom key panics in a worker
     scenario: u8,
     /// delay before the stopping call, so that it lands before / during / after the ticker's first draw
     delay_ms: u8,
@@ -94,19 +99,19 @@ fn run_real(c: &RealCase) -> CaseResult {
     });
     match rx.recv_timeout(PROMPT + PROMPT) {
         Ok(Ok(r)) => r,
-        Ok(Err(p)) => Err(Fail::new("panic", format!("scenario {} panicked: {p}", c.scenario % 8))),
-        Err(_) => Err(Fail::new("not_prompt", format!("scenario {} did not come to an end within {:?} (a call or a destructor blocks although the tick interval should not matter)", c.scenario % 8, PROMPT + PROMPT))),
+        Ok(Err(p)) => Err(Fail::new("panic", format!("scenario {} panicked: {p}", c.scenario % 10))),
+        Err(_) => Err(Fail::new("not_prompt", format!("scenario {} did not come to an end within {:?} (a call or a destructor blocks although the tick interval should not matter)", c.scenario % 10, PROMPT + PROMPT))),
     }
 }
 
 fn run_scenario(c: &RealCase) -> CaseResult {
-    let spy = SlowSpy { flushes: Arc::new(AtomicUsize::new(0)), slow_ms: c.slow_flush_ms as u64 % 40 };
+    let spy = SlowSpy { flushes: Arc::new(AtomicUsize::new(0)), slow_ms: c.slow_flush_ms as u64 % 40, fail_next: Default::default() };
     let pb = ProgressBar::with_draw_target(Some(10), ProgressDrawTarget::term_like(Box::new(spy.clone())));
     pb.set_style(ProgressStyle::with_template("{spinner} {pos}").unwrap());
     let hour = Duration::from_secs(3600);
     let delay = Duration::from_millis(c.delay_ms as u64 % 60);
     let mut v = Verdict::default();
-    match c.scenario % 8 {
+    match c.scenario % 10 {
         0 => {
             pb.enable_steady_tick(Duration::from_millis(1));
             std::thread::sleep(Duration::from_millis(150));
@@ -154,6 +159,77 @@ fn run_scenario(c: &RealCase) -> CaseResult {
             std::thread::sleep(delay);
             prompt("dropping the last handle", move || drop(pb))?;
             v.label("last_drop");
+            v.nontrivial = true;
+            return Ok(v);
+        }
+        8 => {
+            // one frame drawn by the ticker fails (a transient terminal error); the bar is neither finished
+            // nor dropped and the ticker neither disabled nor replaced, so the frames keep coming
+            let d = Duration::from_millis(1 + c.manual_ticks as u64 % 4);
+            pb.enable_steady_tick(d);
+            let t0 = Instant::now();
+            while spy.flushes.load(Ordering::SeqCst) < 2 && t0.elapsed() < Duration::from_secs(10) {
+                std::thread::sleep(Duration::from_millis(1));
+            }
+            ensure!(spy.flushes.load(Ordering::SeqCst) >= 2, "no_steady_redraw", "a {d:?} steady tick painted fewer than 2 frames in 10 s");
+            std::thread::sleep(delay);
+            spy.fail_next.store(true, Ordering::SeqCst);
+            let t0 = Instant::now();
+            while spy.fail_next.load(Ordering::SeqCst) && t0.elapsed() < Duration::from_secs(10) {
+                std::thread::sleep(Duration::from_millis(1));
+            }
+            ensure!(!spy.fail_next.load(Ordering::SeqCst), "no_steady_redraw", "a {d:?} steady tick attempted no frame in 10 s");
+            let n = spy.flushes.load(Ordering::SeqCst);
+            let t0 = Instant::now();
+            while spy.flushes.load(Ordering::SeqCst) < n + 3 && t0.elapsed() < Duration::from_secs(10) {
+                std::thread::sleep(Duration::from_millis(1));
+            }
+            let m = spy.flushes.load(Ordering::SeqCst);
+            ensure!(m >= n + 3, "no_steady_redraw", "after one frame of the {d:?} steady tick failed with a transient terminal error the bar was redrawn only {} time(s) in 10 s (not finished, not disabled, handle alive)", m - n);
+            let p2 = pb.clone();
+            prompt("disable_steady_tick()", move || p2.disable_steady_tick())?;
+            v.label("ticker_frame_failed_once");
+        }
+        9 => {
+            // a custom key panics under a call of a worker thread (which dies); the callback did not re-enter
+            // the library. Stopping the ticker afterwards must not block
+            let armed = Arc::new(std::sync::atomic::AtomicBool::new(false));
+            let a2 = armed.clone();
+            let style = ProgressStyle::with_template("{spinner} {boom} {msg}").unwrap().with_key("boom", move |_: &indicatif::ProgressState, w: &mut dyn std::fmt::Write| {
+                if a2.swap(false, Ordering::SeqCst) {
+                    panic!("custom key fails");
+                }
+                let _ = w.write_str("ok");
+            });
+            pb.set_style(style);
+            let d = Duration::from_millis(2 + c.manual_ticks as u64 % 4);
+            pb.enable_steady_tick(d);
+            std::thread::sleep(delay);
+            let p2 = pb.clone();
+            let a3 = armed.clone();
+            let died = std::thread::spawn(move || {
+                let _ = catch(move || {
+                    // (armed right before the call; if the ticker draws first, the ticker thread dies instead,
+                    // which is just as good for what follows)
+                    a3.store(true, Ordering::SeqCst);
+                    p2.set_message("x");
+                });
+            })
+            .join();
+            ensure!(died.is_ok(), "harness", "worker thread could not be joined");
+            // the ticker wakes up at least once and finds the bar as the worker left it
+            std::thread::sleep(Duration::from_millis(40));
+            let p3 = pb.clone();
+            let stop_way = c.manual_ticks % 2;
+            prompt(if stop_way == 0 { "disable_steady_tick() after a custom key panicked in another thread" } else { "enable_steady_tick() (replace) after a custom key panicked in another thread" }, move || {
+                let _ = catch(move || if stop_way == 0 { p3.disable_steady_tick() } else { p3.enable_steady_tick(Duration::from_secs(3600)) });
+            })?;
+            let p4 = pb.clone();
+            prompt("disable_steady_tick() at the end", move || {
+                let _ = catch(move || p4.disable_steady_tick());
+            })?;
+            v.label("callback_panicked_under_a_live_ticker");
+            let _ = catch(move || drop(pb));
             v.nontrivial = true;
             return Ok(v);
         }
@@ -233,12 +309,12 @@ pub fn property() -> Property {
         ],
         parts: vec![Box::new(Gen::<RealCase> {
             name: "real_threads",
-            rule: "real threads: a 1 ms ticker keeps painting without manual ticks; with a 1 h ticker, disable / replace / finish+drop / last drop return promptly (the stopping call is issued 0-59 ms after enable, the terminal's flush takes 0-39 ms, so the stop lands before, during or after the ticker's first draw) manual tick() calls paint nothing while the ticker is installed, and a bar that was finished, reset and given the same steady tick again is redrawn again",
-            strategy: |_| (0u8..8, any::<u8>(), any::<u8>(), 0u8..8).prop_map(|(scenario, delay_ms, slow_flush_ms, manual_ticks)| RealCase { scenario, delay_ms, slow_flush_ms, manual_ticks }).boxed(),
-            cases: |t| t.pick(10, 320),
+            rule: "real threads: a 1 ms ticker keeps painting without manual ticks; with a 1 h ticker, disable / replace / finish+drop / last drop return promptly (the stopping call is issued 0-59 ms after enable, the terminal's flush takes 0-39 ms, so the stop lands before, during or after the ticker's first draw) manual tick() calls paint nothing while the ticker is installed, a bar that was finished, reset and given the same steady tick again is redrawn again, a ticker one of whose frames failed with a transient terminal error keeps redrawing, and after a custom key panicked under a call of another thread (no re-entry) disable / replace still return promptly",
+            strategy: |_| (0u8..10, any::<u8>(), any::<u8>(), 0u8..8).prop_map(|(scenario, delay_ms, slow_flush_ms, manual_ticks)| RealCase { scenario, delay_ms, slow_flush_ms, manual_ticks }).boxed(),
+            cases: |t| t.pick(14, 400),
             run: run_real,
             signature: no_signature,
-            essential: &["keeps_redrawing", "disable", "replace", "finish_then_drop", "last_drop", "manual_ticks_ignored", "finish_reset_enable_again", "ticker_enabled_while_hidden_then_shown"],
+            essential: &["keeps_redrawing", "disable", "replace", "finish_then_drop", "last_drop", "manual_ticks_ignored", "finish_reset_enable_again", "ticker_enabled_while_hidden_then_shown", "ticker_frame_failed_once", "callback_panicked_under_a_live_ticker"],
             workers: 8,
             decode: None,
         })],
